@@ -3,7 +3,7 @@
    one line per operation. *)
 From NV Require Import Base.Util Base.Sexp Base.IntTy Base.FloatBits Base.Float Base.Expr
      Macro.Surface Macro.Ast Macro.Parse Macro.Validate Macro.Messages Macro.Inventory Macro.GenTests
-     Sem.Guard Sem.Value Sem.Eval Sem.Conv Sem.Bytes Sem.ArbInt Sem.ArbStr Sem.ArbFloat Sem.Order Spec.GuardSpec Spec.Reference Run.Lib Run.Decode.
+     Sem.Guard Sem.Value Sem.Eval Sem.Conv Sem.Text Sem.Bytes Sem.ArbInt Sem.ArbStr Sem.ArbFloat Sem.Order Spec.GuardSpec Spec.Reference Run.Lib Run.Decode.
 From NV.Unicode Require UnicodeData UStr.
 Local Open Scope string_scope.
 
@@ -35,6 +35,18 @@ Definition run_op (d : decl) (op : sexp) : string :=
       | _ => "bad_value" end
   | L [A "from_str"; v] =>
       match dec_opt_value v with Some i => pr_outcome (op_from_str lib d i) | None => "bad_value" end
+  | L [A "from_str_t"; v] =>
+      match dec_value v with
+      | Some (VS s) => pr_outcome (op_from_str_text lib d s)
+      | _ => "bad_value" end
+  | L [A "show_i"; v] =>
+      match dec_value v with
+      | Some v =>
+          match construct lib d v with
+          | OOk x => match op_display_int d x with Some s => pr_value (VS s) | None => "na" end
+          | _ => "rejected"
+          end
+      | None => "bad_value" end
   | L [A "de"; v] =>
       match dec_opt_value v with Some i => pr_outcome (op_deserialize lib d i) | None => "bad_value" end
   | L [A "default"] => pr_outcome (op_default lib d)
